@@ -51,16 +51,33 @@ def rule_context_propagated(ctx: Ctx, out: Collector) -> None:
     asyncio.to_thread does).  Decided on the callable handed to run_in_executor."""
     p = ctx.p
     unit = p.func(RUN_NODE)
-    sites = [n for n in ast.walk(unit.node) if isinstance(n, ast.Call) and isinstance(n.func, ast.Attribute)
-             and n.func.attr == 'run_in_executor']
-    to_thread = [n for n in ast.walk(unit.node) if isinstance(n, ast.Call) and (dotted(n.func) or '').endswith('to_thread')]
+    # run_node and the helpers it calls (the hand-over may be a function of its own)
+    units, todo = [], [unit]
+    while todo:
+        u = todo.pop()
+        if u in units or len(units) > 12:
+            continue
+        units.append(u)
+        env = FuncEnv.of(p, u)
+        for c in env.own_nodes():
+            if isinstance(c, ast.Call):
+                todo.extend(t[1] for t in env.resolve_call(c) if t[0] == 'func' and t[1].module is unit.module and not t[1].is_async)
+    sites, to_thread = [], []
+    for u in units:
+        for n in ast.walk(u.node):
+            if isinstance(n, ast.Call) and isinstance(n.func, ast.Attribute) and n.func.attr == 'run_in_executor':
+                sites.append((u, n, n.args[1:]))
+            elif isinstance(n, ast.Call) and isinstance(n.func, ast.Attribute) and n.func.attr == 'submit' and n.args:
+                sites.append((u, n, n.args))
+            elif isinstance(n, ast.Call) and (dotted(n.func) or '').endswith('to_thread'):
+                to_thread.append(n)
     if not sites and not to_thread:
         raise AnalysisError('run_node hands nothing to an executor (EX-8 anchor vanished)')
-    for c in sites:
-        texts = ' '.join(unparse(x) for a in c.args[1:] for x in _expand(ctx, unit, a))
+    for u_, c, handed in sites:
+        texts = ' '.join(unparse(x) for a in handed for x in _expand(ctx, u_, a))
         # wrappers defined in the repo: their bodies count
-        for a in c.args[1:]:
-            for x in _expand(ctx, unit, a):
+        for a in handed:
+            for x in _expand(ctx, u_, a):
                 for n in ast.walk(x):
                     if isinstance(n, ast.Name):
                         res = p.resolve_global(unit.module, n.id)
@@ -232,7 +249,9 @@ def rule_path_components(ctx: Ctx, out: Collector) -> None:
     ci = _store_class(ctx)
     raw: Dict[str, Tuple[FuncUnit, ast.AST]] = {}
     joins = 0
-    for m in ci.methods.values():
+    scanned = list(ci.methods.values()) + [u for u in p.functions.values() if u.module is ci.module and u.cls is None and u.parent is None
+                                           and not isinstance(u.node, ast.Lambda)]
+    for m in scanned:
         for n in FuncEnv.of(p, m).own_nodes():
             parts: List[ast.AST] = []
             if isinstance(n, ast.BinOp) and isinstance(n.op, ast.Div):
